@@ -25,16 +25,29 @@ def step_tuples(rmax=24, smax=8, tmax=4):
                             yield (R, S, T, P, stationary, workable)
 
 
+def with_stale_today(tuples):
+    """a report resumed on a later day still holds the previous visit's minutes in
+    time_surveyed_current_day: every tuple with P > 0 (mobile) is also run with that field set to P
+    (one earlier partial day) and to 1 (several earlier partial days)"""
+    for t in tuples:
+        yield t + (0,)
+        (R, S, T, P, stationary, workable) = t
+        if P > 0 and not stationary:
+            yield t + (P,)
+            if P > 1:
+                yield t + (1,)
+
+
 def correspond_steps(ctx, tuples, cls="method"):
-    """returns list of (tuple, impl result dict)"""
+    """tuples (R, S, T, P, stationary, workable, staleToday); returns list of (tuple, impl result)"""
     from harness.adapters import crew as C
 
     tuples = list(tuples)
-    lines = [C.step_line(*t) for t in tuples]
+    lines = [C.step_line(*t[:6], today0=t[6]) for t in tuples]
     model = LeanDriver("drv_crew").run(lines)
     out = []
     for t, ml in zip(tuples, model):
-        res = C.impl_step(*t, cls=cls)
+        res = C.impl_step(*t[:6], cls=cls, today0=t[6])
         il = C.impl_step_reply(res)
         ctx.evaluations += 1
         if il != ml:
@@ -46,7 +59,7 @@ def correspond_steps(ctx, tuples, cls="method"):
 
 
 def step_branch(t, res):
-    (R, S, T, P, stationary, workable) = t
+    (R, S, T, P, stationary, workable) = t[:6]
     if not res["visited"]:
         return "unworkable"
     rp, before = res["report"], res["before"]
@@ -90,15 +103,28 @@ def correspond_multiday(ctx, cases, cls="method"):
     model = LeanDriver("drv_crew").run(lines)
     out = []
     for c, ml in zip(cases, model):
-        res = C.impl_multiday(c[0], c[1], c[2], cls=cls)
+        steps = []
+        res = C.impl_multiday(c[0], c[1], c[2], cls=cls, steps=steps)
         il = C.impl_multiday_reply(res)
         ctx.evaluations += 1
         if il != ml:
             ctx.disagree("crew.multiday/" + cls, {"multiday": [c[0], c[1], [list(d) for d in c[2]]], "cls": cls}, ml, il)
             ctx.count("disagree")
-        out.append((c, res))
+        out.append((c, res, steps))
     ctx.traces += len(cases)
     return out
+
+
+def long_multiday(rng):
+    """a survey that needs three or more crew-days: S several times the daily minutes"""
+    T = rng.choice([0, 0, 1, 2, 5, 10])
+    R = rng.choice([6, 10, 30, 60, 360]) + 2 * T
+    S = rng.randint(2 * (R - 2 * T) + 1, 6 * (R - 2 * T))
+    days = []
+    for _ in range(rng.randint(4, 9)):
+        r = R if rng.random() < 0.7 else rng.randint(0, R)
+        days.append((r, T, rng.random() < 0.9, rng.random() < 0.9))
+    return (S, False, days)
 
 
 # ------------------------------------------------------------------------------------------------
@@ -128,23 +154,27 @@ def random_day(rng, size="small", cls=None, cost_types=("day", "site", "none")):
     for sid in range(nreq):
         S = rng.choice([0, rng.randint(0, smax), rng.randint(0, max(smax // 4, 1))])
         T = rng.choice(tset)
-        if stationary or rng.random() < 0.6 or S < 2:
+        td = 0
+        if stationary or rng.random() < 0.55 or S < 2:
             P, ip, trav = 0, False, 0
         else:
+            # a report carried over from earlier days, as the real code leaves it: minutes so far,
+            # in progress, and time_surveyed_current_day still holding the last visit's minutes
             P = rng.randint(1, S - 1)
             ip = True
             trav = rng.choice([0, T, 2 * T])
+            td = rng.choice([P, P, rng.randint(1, P), 0])
         scost = rng.choice([0, 0, 3, 20, 75])
         if not consider_weather:
             wx = rng.choice(WX_OK + WX_BAD)
         else:
             wx = rng.choice(WX_OK) if rng.random() < 0.7 else rng.choice(WX_BAD)
-        reqs.append((sid, S, P, ip, trav, T, scost, wx))
+        reqs.append((sid, S, P, ip, trav, T, scost, wx, td))
     # the exact-fit family: first survey uses the crew's day to the minute
     if reqs and not stationary and rng.random() < 0.25 and budget > 0:
-        (sid, S, P, ip, trav, T, scost, wx) = reqs[0]
+        (sid, S, P, ip, trav, T, scost, wx, td) = reqs[0]
         T = min(T, budget // 2)
-        reqs[0] = (sid, budget - 2 * T, 0, False, 0, T, scost, wx if consider_weather else WX_OK[0])
+        reqs[0] = (sid, budget - 2 * T, 0, False, 0, T, scost, wx if consider_weather else WX_OK[0], 0)
     upfront = rng.choice([0, 0, 100, 2500])
     return (cls, stationary, cost_type, unit_cost, budget, crews, consider_weather, reqs, upfront)
 
@@ -187,15 +217,59 @@ def correspond_days(ctx, cases):
 
 
 def case_json(c):
+    from harness.adapters import crew as C
+
     c = list(c)
-    c[7] = [list(r[:7]) + [list(r[7])] for r in c[7]]
+    c[7] = [C.req_json(r) for r in c[7]]
     return c
 
 
 def case_from_json(c):
+    from harness.adapters import crew as C
+
     c = list(c)
-    c[7] = [tuple(r[:7]) + (tuple(r[7]),) for r in c[7]]
+    c[7] = [C.req_from_json(r) for r in c[7]]
     return tuple(c)
+
+
+def random_campaign(rng):
+    """several days of one mobile method over the same sites; survey times up to several crew-days"""
+    T = rng.choice([0, 0, 5, 10, 30])
+    budget = rng.choice([60, 120, 360, 480])
+    work = max(budget - 2 * T, 1)
+    n = rng.randint(1, 6)
+    sites = []
+    for _ in range(n):
+        k = rng.choice([0.3, 0.8, 1.0, 1.4, 2.5, 3.5, 5.0])
+        sites.append((max(int(work * k) + rng.choice([-1, 0, 0, 1]), 0), T if rng.random() < 0.7 else rng.choice([0, 5, 15]),
+                      rng.choice([0, 0, 20])))
+    camp = {"cls": rng.choice(CLASSES), "budget": budget, "crews": rng.choice([1, 1, 2, 3]),
+            "per_day_plan": rng.choice([1, 2, 3, 6]), "ndays": rng.randint(3, 12), "sites": sites, "weather": None}
+    if rng.random() < 0.4:
+        camp["weather"] = [[list(rng.choice(WX_OK) if rng.random() < 0.75 else rng.choice(WX_BAD)) for _ in range(n)]
+                           for _ in range(rng.randint(2, 5))]
+    return camp
+
+
+def correspond_campaigns(ctx, camps):
+    """every day of every campaign: real outcome vs the model run on the state the day started from;
+    returns list of (campaign, [(day case, DayResult)])"""
+    from harness.adapters import crew as C
+
+    runs = [(camp, C.impl_campaign(camp)) for camp in camps]
+    lines = [C.day_line(case) for (_, days) in runs for (case, _) in days]
+    model = LeanDriver("drv_crew").run(lines)
+    k = 0
+    for camp, days in runs:
+        for d, (case, r) in enumerate(days):
+            il = C.impl_day_reply(case, r)
+            ctx.evaluations += 1
+            if il != model[k]:
+                ctx.disagree("crew.campaign/" + camp["cls"], {"campaign": camp, "day": d}, model[k], il)
+                ctx.count("disagree")
+            k += 1
+    ctx.traces += len(runs)
+    return runs
 
 
 def model_workable(case, req):
@@ -203,6 +277,6 @@ def model_workable(case, req):
 
     if not case[6]:
         return True
-    (t, w, p) = req[7]
+    (t, w, p) = tuple(req[7])
     e = C.ENV
     return e["temp"][0] <= t <= e["temp"][1] and e["wind"][0] <= w <= e["wind"][1] and e["precip"][0] <= p <= e["precip"][1]
